@@ -235,6 +235,10 @@ def generate(rng, tier: str, i: int, prop: str) -> dict:
         "permute_seed": rng.randrange(1 << 30) if len(calls) > 1 and rng.random() < 0.5 else None,
         "recreate": sink == "path" and rng.random() < 0.3,
         "reuse_builder": rng.random() < 0.35,
+        # another builder in the same process whose create() must fail on invalid CONTENT (checked
+        # only when the blocks are serialised), before the program under test runs
+        "prelude": rng.choice(["bad_experiment_unit", "bad_sample_unit", "bad_proj_type", "bad_angle_unit"])
+        if rng.random() < 0.15 else None,
         "faults": {"mode": "none"},
     }
     # fault family
@@ -585,6 +589,9 @@ class SqwEngine(Engine):
         ctx.probe("byteorder_" + scn["byteorder"])
         ctx.probe("sink_" + scn["sink"])
 
+        if scn.get("prelude"):
+            self._prelude(scn, ctx)
+
         # ---- fault-free twin ------------------------------------------------
         sink = self._mk_sink(scn, ctx)
         keep: dict = {}
@@ -609,7 +616,12 @@ class SqwEngine(Engine):
         self._judge_reopen(scn, ctx, sink, dec)
         if self.prop == "C13":
             self._judge_content(scn, ctx, fin, dec)
-            self._judge_reader(scn, ctx, fin, sink, dec)
+            if dec["problems"]:
+                # the container itself is broken (already reported): feeding it to the package's
+                # reader adds nothing and a reader may spin on garbage lengths
+                ctx.probe("reader_skipped_on_structurally_broken_file")
+            else:
+                self._judge_reader(scn, ctx, fin, sink, dec)
 
         # ---- the same builder (and the same input objects) creates the file again -----------
         if scn.get("reuse_builder") and "builder" in keep:
@@ -657,6 +669,44 @@ class SqwEngine(Engine):
                                   scn["faults"].get("partial", 0.0), retry=scn["faults"].get("retry", True))
         elif mode in ("fsize", "fsize_k") and scn["sink"] == "path":
             self._fsize(scn, ctx, fin, dec, buf)
+
+    def _prelude(self, scn, ctx):
+        """A different builder whose create() is expected to be refused because of its content."""
+        import scipp as sc
+        import scippneutron.io.sqw as sqw
+
+        kind = scn["prelude"]
+        calls = [{"op": "detpar"},
+                 {"op": "instrument", "name": "i", "source": {"name": "s", "target": "t", "freq": [1.0, "Hz"]}},
+                 {"op": "sample", "name": "smp", "alatt": [[2.0, 2.0, 2.0], "angstrom"], "angdeg": [[90.0, 90.0, 90.0], "deg"]},
+                 {"op": "pix", "n_dims": 4, "share_vars": False,
+                  "pix": {"n": 12, "seed": 5, "vdtype": "float64", "idtype": "int64", "dist": "ints", "extra_coord": False,
+                          "units": {"u1": "1/angstrom", "u2": "1/angstrom", "u3": "1/angstrom", "u4": "meV", "signal": "count"}},
+                  "runs": [{"run_id": 0, "emode": 1, "psi": [0.1, "rad"], "omega": [0.0, "rad"], "dpsi": [0.0, "rad"],
+                            "gl": [0.0, "rad"], "gs": [0.0, "rad"], "u": [1.0, 0.0, 0.0], "v": [0.0, 1.0, 0.0],
+                            "filename": "f", "filepath": "p", "efix": [5.0, "meV"], "en": [[1.0, 2.0], "meV", "e"]}]},
+                 {"op": "dnd", "meta": _gen_dnd(__import__("random").Random(7))}]
+        if kind == "bad_experiment_unit":
+            calls[3]["runs"][0]["efix"] = [5.0, "m"]
+        elif kind == "bad_angle_unit":
+            calls[3]["runs"][0]["psi"] = [0.1, "s"]
+        elif kind == "bad_sample_unit":
+            calls[2]["alatt"] = [[2.0, 2.0, 2.0], "kg"]
+
+        def run():
+            b = sqw.Sqw.build(seams.SimBytesIO(), title="prelude", byteorder=scn["byteorder"])
+            b = apply_calls(sc, sqw, b, calls)
+            if kind == "bad_proj_type":
+                meta = make_dnd(sc, sqw, calls[4]["meta"])
+                meta.proj.type = "ppp"
+                b = b.add_empty_dnd_data(meta)
+            b.create()
+
+        seams.CLOCK.set(scn["clock"])
+        _, exc = core.capture(run)
+        ctx.log("prelude", kind, "refused:" + exc.name if exc else "ACCEPTED")
+        ctx.probe("create_refused_for_invalid_content_before_program" if exc else
+                  "invalid_content_accepted_by_create")
 
     def _inputs_untouched(self, ctx, keep, what):
         from .. import canon
@@ -721,7 +771,7 @@ class SqwEngine(Engine):
         try:
             if scn["sink"] == "mem":
                 sink.seek(0)
-            with sqw.Sqw.open(sink) as f:
+            with core.time_limit(30.0), sqw.Sqw.open(sink) as f:
                 got = f.byteorder.value
                 hdr = f.file_header
                 names = list(f.data_block_names())
@@ -1281,7 +1331,8 @@ def _judge_reader(self, scn, ctx, fin, sink, dec):
             with sqw.Sqw.open(sink) as f:
                 for name in list(f.data_block_names()):
                     try:
-                        blocks[name] = f.read_data_block(name)
+                        with core.time_limit(30.0):
+                            blocks[name] = f.read_data_block(name)
                     except Exception as e:  # noqa: BLE001
                         bad("/".join(name), f"read_data_block raised {type(e).__name__}: {e}",
                             exc=type(e).__name__)
